@@ -258,11 +258,9 @@ func (a Bytes) M__add__(other Object) (Object, error) {
 }
 
 func (a Bytes) M__iadd__(other Object) (Object, error) {
-	if b, ok := convertToBytes(other); ok {
-		a = append(a, b...)
-		return a, nil
-	}
-	return NotImplemented, nil
+	// bytes are immutable: appending in place would write into the
+	// spare capacity of an array other bytes objects may share
+	return a.M__add__(other)
 }
 
 func (a Bytes) Replace(args Tuple) (Object, error) {
